@@ -135,7 +135,7 @@ func genC03Program(r *R, ex map[string]bool) *Program {
 		return pick(r, maps)
 	}
 	seg := func() string {
-		switch r.N(26) {
+		switch r.N(27) {
 		case 0, 1:
 			return "{% for k, v in " + anyMap() + " %}{{ k }}={{ v|json_encode }}|{{ loop.index }};{% endfor %}"
 		case 2:
@@ -222,6 +222,9 @@ func genC03Program(r *R, ex map[string]bool) *Program {
 		case 25:
 			// debugging aids print whole values: maps inside them in a fixed order too
 			return "{{ dump(" + pick(r, []string{"m1", "m2", "si", "nm", "zam", "{'b': 1, 'a': 2, 'c': [1, {'z': 1, 'y': 2}]}", "rows", "tie", "l2"}) + ") }}"
+		case 26:
+			// a sandboxed include, and afterwards something the policy would not allow inside it
+			return "{% include 'sbpart' sandboxed %}{{ s1|striptags }}{{ '<i>x</i>'|striptags }}{% for k, v in m2 %}{{ k }}{% endfor %}"
 		case 22:
 			// the same name bound twice in one construct: which binding wins must be decided by the source text
 			return pick(r, []string{
@@ -241,6 +244,7 @@ func genC03Program(r *R, ex map[string]bool) *Program {
 	p := &Program{Ctx: ctx}
 	p.Templates = append(p.Templates,
 		Tmpl{Name: "lib3", Segs: []string{"{% macro ma(x) %}A({{ x }}){% endmacro %}{% macro mb(x) %}B({{ x }}){% endmacro %}{% macro mc(x) %}C({{ x }}){% endmacro %}"}},
+		Tmpl{Name: "sbpart", Segs: []string{"<sb {{ n1 }}{{ m2|keys|json_encode }}>"}},
 		Tmpl{Name: "lib3b", Segs: []string{"{% macro ma(x) %}A2({{ x }}){% endmacro %}{% macro mb(x) %}B2({{ x }}){% endmacro %}"}})
 	part := Tmpl{Name: "part0", Segs: []string{"[{{ a|default('-') }}{{ b|default('-') }}{{ c|default('-') }}{{ d|default('-') }}]"}}
 	p.Templates = append(p.Templates, part)
